@@ -200,3 +200,74 @@ func ZZ_C06_Revert() {
 	zzReach("C06.revert.done")
 	zzCleanupFiles()
 }
+
+// C02 at the replica (an acknowledgement means "applied"): with one data transfer of
+// the chain files failing (EIO / ENOSPC on one extent), a write that diffDisk reports
+// as successful has put every byte in place, and a read reported as successful returns
+// the image; a failed part is never masked by a later part that succeeded.
+func ZZ_C02_ReplicaAckImpliesApplied() {
+	B, U, Fmax := zzBounds()
+	F := zzConcretize(zzChoice("F", Fmax)) + 1
+	z := zzMkDiffDisk(B, U, F, true)
+	d := z.d
+	zzStartHoleWorker()
+	img := z.image(F)
+	total := B * U
+	off := zzConcretize(zzChoice("off", total))
+	n := zzConcretize(zzChoice("len", total-off)) + 1
+	buf := z.buf(n)
+	vals := make([]byte, n)
+	for i := 0; i < n; i++ {
+		vals[i] = zzNondetByte("buf")
+		z.setUnit(buf, i, vals[i])
+	}
+	zzFileOps = 0
+	zzFileFailAt = zzConcretize(zzChoice("fail.at", 6))
+	isRead := zzNondetBool("read")
+	if isRead {
+		rb := z.buf(n)
+		for i := 0; i < n; i++ {
+			z.setUnit(rb, i, 0xEE)
+		}
+		_, err := d.ReadAt(rb, int64(off)*zzScale(U))
+		injected := zzFileOps > zzFileFailAt
+		zzFileFailAt = -1
+		zzAssume(injected)
+		if err == nil {
+			zzReach("C02.replica.read-ok-despite-fault")
+			for i := 0; i < n; i++ {
+				zzAssert(z.unit(rb, i) == img[off+i], "C02.replica.read-reported-ok-with-wrong-data")
+			}
+		} else {
+			zzReach("C02.replica.read-failed")
+		}
+		zzCleanupFiles()
+		return
+	}
+	_, err := d.WriteAt(buf, int64(off)*zzScale(U))
+	injected := zzFileOps > zzFileFailAt
+	zzFileFailAt = -1
+	zzAssume(injected) // otherwise this is the fault-free step of C01
+	zzSettle()
+	if err == nil {
+		zzReach("C02.replica.write-ok-despite-fault")
+		img2 := z.image(F)
+		for x := off; x < off+n; x++ {
+			zzAssert(img2[x] == vals[x-off], "C02.replica.write-acknowledged-but-not-applied")
+		}
+	} else {
+		zzReach("C02.replica.write-failed")
+	}
+	// an acknowledged write leaves bytes outside its range as they were (a replica that
+	// reported the failure is detached by the controller; its content is then unspecified:
+	// fullWriteAt marks the blocks written "regardless of err")
+	if err == nil {
+		img3 := z.image(F)
+		for x := 0; x < total; x++ {
+			if x < off || x >= off+n {
+				zzAssert(img3[x] == img[x], "C02.replica.acknowledged-write-changed-bytes-outside-its-range")
+			}
+		}
+	}
+	zzCleanupFiles()
+}
